@@ -250,7 +250,12 @@ class _ImmutableTaskList:
             return t.estimate
         if attribute_name == 'spent':
             return t.spent
-        return t.__getattribute__(attribute_name) if attribute_name in t.__dict__ else None
+        if attribute_name in t.__dict__:
+            return t.__getattribute__(attribute_name)
+        # Attributes declared by a subclass of Task (class-level defaults, properties) are attributes of the task too
+        if hasattr(type(t), attribute_name) and not hasattr(Task, attribute_name):
+            return getattr(t, attribute_name)
+        return None
 
     def __call__(
             self,
